@@ -229,6 +229,9 @@ impl Lane for C15 {
         }
         // next_f64 in [0, 1) on the draws of this seed (pure; counted with the sequential checks)
         st.sequential_checks += 1;
+        if Xoshiro256StarStar::new(b.seed).next().is_some_and(|w| w <= 3 || w >= u64::MAX - 1) {
+            st.bump("probe/seed_whose_first_output_word_is_0..3_or_MAX");
+        }
         if Xoshiro256StarStar::new(b.seed).next_f64() == 1.0 - f64::EPSILON {
             st.bump("probe/seed_whose_first_draw_is_the_largest_possible");
             if b.gen == "erdos_renyi" && p_of(b) == 1.0 {
